@@ -1,6 +1,7 @@
 pub mod codec;
 pub mod core;
 pub mod drop;
+pub mod recovery;
 pub mod synctest;
 
 use crate::scenario::Scenario;
@@ -11,6 +12,7 @@ pub type JudgeFn = fn(&Scenario, &ExecResult, Option<&ExecResult>) -> Vec<Violat
 /// The end-of-run judge that belongs to a property (replay uses it).
 pub fn judge_for(prop: &str) -> JudgeFn {
     match prop {
+        "C05" => recovery::judge,
         "C07" => drop::judge,
         _ => core::no_judge,
     }
